@@ -3916,7 +3916,11 @@ func abortCalls(repo string) {
 		}
 		return nil
 	})
-	fmt.Fprintf(&out, "\n(* directories scanned for explicit aborts: %s *)", strings.Join(dirs, " "))
+	qd := make([]string, len(dirs))
+	for i, d := range dirs {
+		qd[i] = strconv.Quote(filepath.ToSlash(d)) + "%string"
+	}
+	fmt.Fprintf(&out, "\n(* directories scanned for explicit aborts *)\nDefinition gen_abort_dirs : list string := [%s].", strings.Join(qd, "; "))
 	for _, dir := range dirs {
 		files := parseDir(filepath.Join(repo, dir))
 		for n, f := range files {
